@@ -22,7 +22,7 @@ EXTENDS Traversal, IOUtils
 
 Log == ndJsonDeserialize(IOEnv.TRACE)
 Hdr == Log[1]
-Indexed == Hdr.fam \in {"core", "lists", "full", "tri"}
+Indexed == Hdr.fam \in {"core", "lists", "bs", "full", "tri"}
 
 VARIABLE i
 CaseOfLine(ln) == [tree |-> TreeOf(ln.t, ln.w), pats |-> ln.p, mode |-> ln.m]
